@@ -1043,3 +1043,29 @@ func sCommitCoversConfig(c *Ctx, rule string) {
 		}
 	}
 }
+
+
+// coreCommitBundle: the rule groups every "what is committed stays committed
+// and is what clients were told" property depends on, whichever of them a
+// change is filed under: voter-only commitment slots, the quorum element, the
+// first committable index of a term, the follower's commit update, match
+// bookkeeping only on acknowledged entries, who may send as leader with which
+// term, and the quorum size. skip names groups the property already runs.
+func coreCommitBundle(c *Ctx, rule string, skip ...string) {
+	has := map[string]bool{}
+	for _, s := range skip {
+		has[s] = true
+	}
+	run := func(name string, f func(*Ctx, string)) {
+		if !has[name] {
+			f(c, rule+"/"+name)
+		}
+	}
+	run("C05.R1", c05R1)
+	run("C05.R2", c05R2)
+	run("C05.R3", c05R3)
+	run("C05.R4", c05R4)
+	run("S-MATCH", sMatch)
+	run("C01.R5", c01R5)
+	run("S-QUORUM", sQuorum)
+}
